@@ -268,7 +268,7 @@ class MediaFile(ModelMixin["MediaFile"], Base):
         self.rep = rep.toJSON(pure=True)
         self.track_id = rep.track_id
         self.content_type = rep.content_type
-        self.codec_fourcc = rep.codecs.split('.')[0]
+        self.codec_fourcc = rep.codecs.split('.')[0] if rep.codecs else None
         self.bitrate = rep.bitrate
         self.encrypted = rep.encrypted
         self.encryption_keys = []
